@@ -30,7 +30,7 @@ func c13Analyze(nfiles int, makefileBytes int, scripts int) {
 		} else if n == "package.json" {
 			sc := map[string]string{}
 			for k := 0; k < scripts; k++ {
-				sc[[]string{"build", "test"}[k]] = "run"
+				sc[[]string{"build", "test"}[k]] = []string{"run", "vite build", "webpack --mode production"}[verifIntRange("script", 0, 2)]
 			}
 			verifFSPutDoc(dir+"/"+n, "json", struct {
 				Scripts map[string]string `json:"scripts"`
